@@ -225,13 +225,15 @@ structure Step (m : List (String × Ex)) (V W D : List String) (cs st cs' st' : 
   frame : Frame m W st st'
   mono : Mono cs cs'
   keep : ∀ y, y ∉ W → lookupCell cs' y = lookupCell cs y
+  tys : ∀ n ty ov, lookupCell st n = some (.scalar ty ov) → ∃ ov', lookupCell st' n = some (.scalar ty ov')
 
 theorem Step.refl {m V W D cs st} (h : Rel m V W D cs st) : Step m V W D cs st cs st :=
-  ⟨h, Frame.refl _ _ _, Mono.refl _, fun _ _ => rfl⟩
+  ⟨h, Frame.refl _ _ _, Mono.refl _, fun _ _ => rfl, fun _ _ ov h => ⟨ov, h⟩⟩
 
 theorem Step.trans {m V W D} {cs st cs1 st1 cs2 st2 : St} (h1 : Step m V W D cs st cs1 st1)
     (h2 : Step m V W D cs1 st1 cs2 st2) : Step m V W D cs st cs2 st2 :=
-  ⟨h2.rel, h1.frame.trans h2.frame, h1.mono.trans h2.mono, fun y hy => (h2.keep y hy).trans (h1.keep y hy)⟩
+  ⟨h2.rel, h1.frame.trans h2.frame, h1.mono.trans h2.mono, fun y hy => (h2.keep y hy).trans (h1.keep y hy),
+    fun n ty ov h => by obtain ⟨ov1, h'⟩ := h1.tys n ty ov h; exact h2.tys n ty ov1 h'⟩
 
 theorem scalar_write {σ : St} (hal : σ.alias = []) {x : String} {ty : Ty} {ov : Option Val}
     (hc : lookupCell σ x = some (.scalar ty ov)) (val : Val) :
@@ -258,7 +260,7 @@ theorem write_le {m V W D cs st} (hside : sideOK m V W = true) (h : Rel m V W D 
     refine ⟨a0, { st with store := setCell st.store a0 (.scalar ty (some v')) }, hi0, boundsOf_scalar h.als hs, ?_, ?_⟩
     · rw [scalar_write h.als hs, hco]; rfl
     · have htgt : tgt m x = some a0 := by unfold tgt; rw [hi0]
-      refine ⟨⟨h.alc, h.als, h.out, ?_, ?_, ?_, ?_⟩, ?_, ?_, ?_⟩
+      refine ⟨⟨h.alc, h.als, h.out, ?_, ?_, ?_, ?_⟩, ?_, ?_, ?_, ?_⟩
       · intro y hy
         by_cases hxy : x = y
         · subst hxy; exact ⟨ty, some v', lookup_set_same _ _ _⟩
@@ -314,6 +316,15 @@ theorem write_le {m V W D cs st} (hside : sideOK m V W = true) (h : Rel m V W D 
       · intro y hy
         have hxy : x ≠ y := fun e => hy (e ▸ hx)
         exact lookup_set_other _ hxy _
+      · intro n ty2 ov2 hn
+        by_cases hna : a0 = n
+        · subst hna
+          rw [hs] at hn
+          injection hn with hn
+          injection hn with ht _
+          subst ht
+          exact ⟨some v', lookup_set_same _ _ _⟩
+        · exact ⟨ov2, by rw [lookup_set_other _ hna]; exact hn⟩
 
 /-! ### statements -/
 
